@@ -8,6 +8,8 @@ ALL = ['C%02d' % i for i in range(1, 21)]
 
 SCHED_TRUST = 'Trusted: Coq kernel, the hand-written scheduler model (exact integer arithmetic; float rounding modelled out; exact model-vs-implementation comparison only on the dyadic grid; off the grid only oracles with a stated tolerance), harness incl. capacity tabulation from the calendars; interpreter recursion depth not modelled.'
 
+GT = 'Trusted: Coq kernel + vm_compute, the hand-written heap model of task.py/wbs.py (guards then writes; list facades = the owner looked up now), harness (state-aware history generator, snapshot by object identity, step-wise comparison). Model-domain restriction: a hidden WBS root is never named as a task argument (pub_args, evaluated on every generated call; Python cannot name it). Interpreter recursion depth not modelled.'
+
 # property -> (technique, level text, level note, design_ref)
 CHECKS = {
     'C17': (
@@ -109,6 +111,26 @@ CHECKS = {
         'Theorems (Props_C14.v, closed): C14_total_forward/backward, C14_compute_no_crash, C14_divisors_positive, C14_err_isolated / _future_end / _no_capacity / _cycle / _hierarchy_cycle, C14_reentry, C14_err_causes_*, C14_complete_* (Err only from the four causes, read as: no reachable machine state is stuck). '
         'Known finding F16 (chains deeper than the interpreter recursion limit raise RecursionError) is probed on every run and reported as KNOWN-FINDING; the model has no interpreter stack.',
         SCHED_TRUST, '4.14'),
+    'C01': (
+        'Coq proof that every public mutator preserves the invariant WF (9 conjuncts: finiteness, parent/children mirror, acyclic hierarchy, symmetric duplicate-free links, no dependency cycle, no link between ancestor and descendant, id uniqueness per tree, hidden roots, ownership), by induction over histories + reflection wf_b <-> WF evaluated on the implementation\'s snapshot after every call (also raising ones) + step-wise model comparison',
+        'Theorems (Props_C01.v, closed under the global context): C01_step (WF s -> pub_args s o -> WF (fst (step s o)) for all 24 operation kinds, whatever the outcome), C01_run/C01_reach/C01_prefixes (every state reachable from init by public histories, at every prefix), C01_meaning (WF in the property\'s words over the public view), C01_oracle (wf_b s = true <-> WF s).',
+        GT, '4.1'),
+    'C05': (
+        'Coq proof of id uniqueness (projection of WF preserved by every step), exact rejection by the id-clash guard, exact lookup and depth-first enumeration + oracle wf_ids_b and the reads wbs[id] / WBS.tasks compared on every state of generated histories',
+        'Theorems (Props_C05.v, closed): C05_unique, C05_reject / C05_reject_set_parent / C05_reject_set_children (a write that would join equal ids returns (s, Err)), C05_id_clash_spec, C05_guards_no_crash, C05_lookup (wbs[i] = the member with that id, Err iff none, never a crash), C05_tasks (NoDup, membership, preorder equation), C05_reach.',
+        GT, '4.5'),
+    'C11': (
+        'Coq proof that Task.wbs agrees with reachability from the WBS roots in every reachable state (I_own within WF), that attach/move/remove change the owner of exactly the moved subtree, and that every removal path releases the task + oracle wf_own_b/wf_hid_b on every snapshot',
+        'Theorems (Props_C11.v, closed): C11_truth (own t = Some w <-> t in wbs_tasks w), C11_reach, C11_whole_subtree / C11_subtree / C11_subtree_children, C11_removed_list / _wbs / _assignment / _list_all / _wbs_all (removed task: no owner, no parent [except a match below another match], in no WBS, ownership guard can no longer reject it).',
+        GT, '4.11'),
+    'C15': (
+        'Coq proof that a non-OK outcome leaves the state unchanged for 21 operation kinds (syntactic validate-then-write shape; loops: element calls never raise on WF states), refutation witnesses for the 3 non-atomic kinds (recorded known findings) + full-snapshot comparison before/after every raising call of generated histories',
+        'Theorems (Props_C15.v, closed): C15_atomic / C15_atomic_core (18 kinds, all states), C15_atomic_wf (21 kinds under WF), C15_remove_all_never_raises, C15_atomic_reach; C15_refuted_lst_shift, C15_refuted_lst_set_parent, C15_refuted_new_task_rel are the three open findings (KNOWN-FINDING lines).',
+        GT, '4.15'),
+    'C16': (
+        'Coq proof of the documented effect of every accepted mutator (exact new lists for assignment, append, insert, move, stable sort, reorder, removals; effect of the three setters incl. owner propagation and mirror lists) and of per-setter frame theorems + full-state comparison of model and implementation after every accepted call',
+        'Theorems (Props_C16.v, closed): C16_move, C16_insert, C16_sort (permutation, sorted, stable, reverse), C16_reorder, C16_append, C16_remove, C16_remove_all, C16_floordiv, C16_wbs_remove, C16_set_parent, C16_set_children(+own), C16_set_links, C16_mirror, C16_frame_set_parent/_children/_links/_derived, C16_frame_only_kids.',
+        GT + ' Sort keys restricted to id / integer attribute / name (totally ordered); the frame is stated per setter.', '4.16'),
 }
 
 NOT_YET = 'check not built yet in this round (planned, see DESIGN.md section 4)'
